@@ -92,7 +92,7 @@ static inline size_t levenshtein_algorithm(const char* a, size_t a_size,
     // fill this row with ascending ordinals.
     for (size_t i = 0; i < a_size + 1; i++)
     {
-        thisrow[i] = i;
+        thisrow[i] = i * Param::cost_insert_delete;
     }
 
     // compute distance
@@ -102,7 +102,7 @@ static inline size_t levenshtein_algorithm(const char* a, size_t a_size,
         std::swap(lastrow, thisrow);
 
         // compute new row
-        thisrow[0] = j;
+        thisrow[0] = j * Param::cost_insert_delete;
 
         for (size_t i = 1; i < a_size + 1; i++)
         {
